@@ -379,6 +379,10 @@ def regen_layer(run, route):
     res2 = lib.run_tlc("MC_GenRst", GEN_CFG_T.format(dev="NoDev", n=n, blind="NoBlind"))
     run.add_tlc("MC_GenRst(steps<=%d, route %s)" % (n, route), res2)
     runsh.replay_genrst(run, res2.lines.get("BEH", []), route)
+    note = ("GenRst histories: pages of a source that has gone away since an earlier call may stay in the output directory "
+            "(CMinx never deletes pages); everything else must equal a fresh command-line run")
+    if note not in run.assumptions:
+        run.assumptions.append(note)
     if route == "inproc":
         return
     blind = "BlindUpperSettings" if route == "cmake" else "BlindSettingsBackdated"
